@@ -101,8 +101,15 @@ func svcHandle(c service.Controller) handle {
 	}
 }
 
+// (non-zero constant generation; the objects named w1 and p1 are terminating but still exist: neither field takes
+// part in any selection rule)
 func meta(ns, name, rv string) metav1.ObjectMeta {
-	return metav1.ObjectMeta{Namespace: ns, Name: name, ResourceVersion: rv}
+	m := metav1.ObjectMeta{Namespace: ns, Name: name, ResourceVersion: rv, Generation: 7}
+	if name == "w1" || name == "p1" {
+		t := metav1.Unix(1000, 0)
+		m.DeletionTimestamp = &t
+	}
+	return m
 }
 
 func lsel(sel string) *metav1.LabelSelector {
@@ -238,11 +245,15 @@ type cfg struct {
 	// that bounds the call, not the join): the join result stays open and keeps following its bases
 	CancelCallCtx bool
 	DstHist       []ev
-	MidHist       []ev // double join only: changes of the services in the middle
-	Cycles        int
-	Mode          string
-	Bound         int
-	Name          string
+	// Bufsiz > 0: model value of EventBufsiz; the destination history then runs first, one event at a time, and the
+	// source history after it as one burst (events of the burst are dropped on the way to the join's monitor; the
+	// join must still end at the selection of the final sources)
+	Bufsiz  int
+	MidHist []ev // double join only: changes of the services in the middle
+	Cycles  int
+	Mode    string
+	Bound   int
+	Name    string
 }
 
 type inst struct {
@@ -400,8 +411,12 @@ func (in *inst) run() {
 			// both bases become ready and go through their histories, concurrently
 			fin := make(chan bool, 2)
 			srcOver := make(chan struct{})
+			dstOver := make(chan struct{})
 			go func() {
 				src.Init(srcInit)
+				if c.Bufsiz > 0 {
+					<-dstOver
+				}
 				for _, e := range c.SrcHist {
 					if c.Sequenced {
 						vs.SleepIdle(time.Duration(1))
@@ -430,7 +445,11 @@ func (in *inst) run() {
 						dstCur[e.ns+"/"+e.name] = o
 					}
 					dst.Publish(kcache.NewEvent(e.typ, o))
+					if c.Bufsiz > 0 {
+						vs.SleepIdle(time.Duration(1))
+					}
 				}
+				close(dstOver)
 				fin <- true
 			}()
 			if mid != nil && len(c.MidHist) > 0 {
@@ -554,7 +573,7 @@ func (in *inst) check(r *vs.Result) []string {
 			msgs = append(msgs, fmt.Sprintf("%s join ready before its bases | %s: %s", name, desc, o))
 		}
 	}
-	if len(in.readyAt) > 0 && len(in.received) > 0 {
+	if len(in.readyAt) > 0 && len(in.received) > 0 && in.c.Bufsiz == 0 {
 		if got := hx.MirrorTolerant(in.readyAt[0], in.received[0]); got != in.lists[0] {
 			msgs = append(msgs, fmt.Sprintf("%s join events do not account for its cache | %s: content at readiness %s + events %v = %s, cache %s", name, desc, in.readyAt[0], in.received[0], got, in.lists[0]))
 		}
@@ -582,7 +601,7 @@ func scenario(c cfg) runner.Sc {
 	return runner.Sc{
 		Scenario: explore.Scenario{
 			Name: fmt.Sprintf("c09/%s/%s/%s%d", kinds[c.Kind].name, c.Name, c.Mode, c.Bound), Mode: c.Mode, Bound: c.Bound,
-			Cfg: vs.Config{Timers: vs.TimersIdle, MaxSteps: 400000},
+			Cfg: vs.Config{Timers: vs.TimersIdle, MaxSteps: 400000, Bufsiz: c.Bufsiz},
 			New: func() explore.Instance {
 				in := &inst{c: c}
 				return explore.Instance{Run: in.run, Check: in.check, Outcome: in.outcome}
@@ -684,6 +703,9 @@ func Property() runner.Property {
 					// a source appears that selects nothing yet and disappears again; then a destination object appears that it
 					// would have selected (the join's filter must be back to the first one)
 					scenario(cfg{Kind: ki, Name: "source-appears-and-disappears,then-its-target-appears", SrcInit: []ev{{C, "ns", "w1", sel1}}, SrcHist: []ev{{C, "ns", "w2", sel3}, {D, "ns", "w2", sel3}}, DstHist: dst3, Sequenced: true, Cycles: 1, Mode: "S2", Bound: d - 1}),
+					// a burst of source changes larger than the (model) event buffers: whatever is dropped on the way to the
+					// join, it ends at the selection of the final sources
+					scenario(cfg{Kind: ki, Name: "source-burst-overflows-the-buffers", Bufsiz: 2, SrcInit: []ev{{C, "ns", "w1", sel1}}, SrcHist: []ev{{U, "ns", "w1", sel2}, {C, "ns", "w2", sel1}, {U, "ns", "w1", sel1}, {D, "ns", "w2", sel1}, {U, "ns", "w1", sel2}}, DstHist: dst, Cycles: 1, Mode: "S2", Bound: d}),
 					// a sibling join over the same bases is closed while events flow
 					scenario(cfg{Kind: ki, Name: "second-source+disappear", SrcInit: []ev{{C, "ns", "w1", sel1}}, SrcHist: []ev{{C, "ns", "w2", sel2}, {D, "ns", "w1", sel1}}, DstHist: dst, Cycles: 1, Mode: "S2", Bound: d}),
 				)
